@@ -1,5 +1,6 @@
 import OVM.Kernel.Frames
 import OVM.Props.C08
+import OVM.Refine.CellCheck
 /-
   C11 — construction validates.
   Proved here for every mesh state and every argument list:
@@ -10,8 +11,13 @@ import OVM.Props.C08
   * `add_edge` without `allowDuplicates` creates an edge only if the search it performs
     (incidence-based or linear over the live edges) found none, and what the linear search
     finds is a live edge between the two vertices in either direction.
-  The sort / adjacent_find / unique-by-edge form of `add_cell`'s check is characterised in
-  `cellCheck_iff` (see below for what is proved).
+  * the topology check of `add_cell` (sort / adjacent_find / unique-by-edge, cc:398-434) accepts
+    exactly the closed surfaces (`Kernel.ClosedSurface`, OVM/Refine/CellCheck.lean: no halfedge of
+    the given halffaces is used twice and with every used halfedge its opposite is used):
+    `add_cell_check_iff_closed_surface`, for every state and every list, no side condition; hence
+    `add_cell(hfs, true)` succeeds iff `hfs` is non-empty and a closed surface
+    (`addCell_checked_iff_closed_surface`).  The empty list is rejected by the explicit
+    `_halffaces.empty()` test (cc:400), although it satisfies the predicate vacuously.
 -/
 namespace OVM.Props.C11
 open OVM OVM.Kernel
@@ -100,6 +106,51 @@ theorem addCell_checked_iff (k : Kernel) (hfs : List Nat) :
   | nil => simp
   | cons a t => by_cases hc : k.cellCheck (a :: t) = true <;> simp [hc]
 
+/-- **the check computed by `add_cell` is the closed-surface predicate**: for every mesh state and
+    every list of halffaces, sorting all their halfedges, finding no two equal neighbours and
+    counting `#halfedges = 2 * #distinct edges` holds exactly when no halfedge is used twice and
+    every used halfedge has its opposite used (hence, exactly once).  No hypothesis on `k` or `hfs`
+    (handles may be out of range, faces degenerate, a face may contain a halfedge together with
+    its opposite, both halffaces of a face may be listed). -/
+theorem add_cell_check_iff_closed_surface (k : Kernel) (hfs : List Nat) :
+    k.cellCheck hfs = true ↔ ClosedSurface k hfs := cellCheck_iff k hfs
+
+/-- `ClosedSurface` says "matched exactly once": every halfedge of the halffaces occurs once and
+    its opposite occurs once among the halfedges of the halffaces -/
+theorem closedSurface_matched_once (k : Kernel) (hfs : List Nat) :
+    ClosedSurface k hfs ↔
+      ∀ h ∈ k.cellHalfedges hfs,
+        (k.cellHalfedges hfs).count h = 1 ∧ (k.cellHalfedges hfs).count (opp h) = 1 :=
+  closedSurface_iff_count k hfs
+
+/-- `add_cell` with topology check succeeds exactly on the non-empty closed surfaces; the empty
+    list (vacuously closed) is rejected by the explicit test at cc:400 -/
+theorem addCell_checked_iff_closed_surface (k : Kernel) (hfs : List Nat) :
+    (k.addCell hfs true).2 ≠ none ↔ (hfs ≠ [] ∧ ClosedSurface k hfs) := by
+  rw [addCell_checked_iff, add_cell_check_iff_closed_surface]
+
+/-- accepted and rejected calls in terms of the predicate: a non-empty closed surface becomes the
+    new cell `nC` with exactly that definition; anything else leaves the mesh unchanged -/
+theorem addCell_checked_spec (k : Kernel) (hfs : List Nat) :
+    (hfs ≠ [] ∧ ClosedSurface k hfs ∧ (k.addCell hfs true).2 = some k.nC ∧
+        (k.addCell hfs true).1.cells = k.cells ++ [hfs]) ∨
+    (¬ (hfs ≠ [] ∧ ClosedSurface k hfs) ∧ k.addCell hfs true = (k, none)) := by
+  by_cases h : hfs ≠ [] ∧ ClosedSurface k hfs
+  · left
+    have hacc := (addCell_checked_iff_closed_surface k hfs).mpr h
+    cases hr : (k.addCell hfs true).2 with
+    | none => exact absurd hr hacc
+    | some c =>
+      have := addCell_accept k hfs true c hr
+      exact ⟨h.1, h.2, by rw [this.1], this.2.1⟩
+  · right
+    refine ⟨h, ?_⟩
+    have hr : (k.addCell hfs true).2 = none := by
+      by_cases hn : (k.addCell hfs true).2 = none
+      · exact hn
+      · exact absurd ((addCell_checked_iff_closed_surface k hfs).mp hn) h
+    exact Prod.ext (addCell_reject_unchanged k hfs true hr) hr
+
 /-- `add_edge`: either an existing handle comes back and the mesh is returned unchanged, or
     exactly the edge `(a,b)` is appended and nothing else is redefined -/
 theorem addEdge_spec (k : Kernel) (a b : Nat) (dup : Bool) :
@@ -159,5 +210,21 @@ example :
                         eDel := List.replicate 6 false, fDel := List.replicate 4 false, vDel := List.replicate 4 false,
                         vBU := false, eBU := false, fBU := false }
     k.cellCheck [1, 2, 4, 6] = true ∧ k.cellCheck [1, 2, 4] = false ∧ k.cellCheck [1, 2, 4, 6, 6] = false := by decide
+
+/-- non-vacuity of `add_cell_check_iff_closed_surface` (the predicate evaluated directly, not via
+    the check): the four halffaces of a tetrahedron form a closed surface, an open triple does
+    not, a list with a doubled halfface does not, both halffaces of one face do (a "pillow",
+    which the check accepts as well), the empty list does vacuously and is still rejected, and a
+    face running along an edge and back (a halfedge with its opposite in the same face) is closed
+    in this sense and accepted -/
+example :
+    let k : Kernel := { nV := 4, edges := [(0, 1), (1, 2), (2, 0), (0, 3), (1, 3), (2, 3)],
+                        faces := [[0, 2, 4], [0, 8, 7], [2, 10, 9], [4, 6, 11], [0, 1]],
+                        eDel := List.replicate 6 false, fDel := List.replicate 5 false, vDel := List.replicate 4 false,
+                        vBU := false, eBU := false, fBU := false }
+    ClosedSurface k [1, 2, 4, 6] ∧ ¬ ClosedSurface k [1, 2, 4] ∧ ¬ ClosedSurface k [1, 2, 4, 6, 6] ∧
+    ClosedSurface k [0, 1] ∧ ClosedSurface k [] ∧ (k.addCell [] true).2 = none ∧
+    ClosedSurface k [8] ∧ (k.addCell [8] true).2 = some 0 ∧
+    (k.addCell [1, 2, 4, 6] true).2 = some 0 ∧ k.addCell [1, 2, 4] true = (k, none) := by decide
 
 end OVM.Props.C11
